@@ -296,6 +296,39 @@ def check_pool_extreme(c, rec):
                                      f"in {dt}); {ctx}", region=op.name)
 
 
+# ---- activations at +-inf (limits exist and are finite or infinite, never NaN) -----------------------------------------
+@st.composite
+def act_inf_cases(draw):
+    n = draw(st.integers(1, 6))
+    return {"act": draw(st.sampled_from(["relu", "leaky_relu", "selu", "tanh", "sigmoid"])), "form": draw(st.sampled_from(["fn", "module"])),
+            "v": [draw(st.sampled_from(["inf", "-inf", "-inf", 0.0, 1.5, -2.0, 1e30, -1e30])) for _ in range(n)], "dtype": draw(gen.DTYPES),
+            "slope": draw(st.sampled_from([0.01, 0.2]))}
+
+
+def check_act_inf(c, rec):
+    dt = np.dtype(c["dtype"])
+    x = np.array([float(v) for v in c["v"]], dtype=dt)
+    rec.nontrivial(bool(np.isinf(x).any()))
+    rec.tag(c["act"])
+    t = Tensor(x.copy())
+    a = c["act"]
+    mods = {"relu": lambda: nn.ReLU(), "leaky_relu": lambda: nn.LeakyReLU(c["slope"]), "selu": lambda: nn.SELU(), "tanh": lambda: nn.Tanh(),
+            "sigmoid": lambda: nn.Sigmoid()}
+    fns = {"relu": lambda u: F.relu(u), "leaky_relu": lambda u: F.leaky_relu(u, c["slope"]), "selu": lambda u: F.selu(u), "tanh": lambda u: F.tanh(u),
+           "sigmoid": lambda u: F.sigmoid(u)}
+    with np.errstate(all="ignore"):
+        out = mods[a]()(t) if c["form"] == "module" else fns[a](t)
+        x64 = x.astype(np.float64)
+        want = {"relu": lambda: np.where(x64 > 0, x64, 0.0), "leaky_relu": lambda: np.where(x64 > 0, x64, c["slope"] * x64),
+                "selu": lambda: nnops.SELU_SCALE * np.where(x64 > 0, x64, nnops.SELU_ALPHA * np.expm1(np.minimum(x64, 0.0))),
+                "tanh": lambda: np.tanh(x64), "sigmoid": lambda: np.where(x64 >= 0, 1 / (1 + np.exp(-np.abs(x64))), 1 - 1 / (1 + np.exp(-np.abs(x64))))}[a]()
+    got = np.asarray(out.data, dtype=np.float64)
+    ok = np.where(np.isinf(want), got == want, np.abs(got - want) <= 1e-5 * np.maximum(1.0, np.abs(want)))
+    if got.shape != want.shape or not np.all(ok):
+        i = int(np.argmin(ok))
+        raise Violation("value", f"{a}({x[i]!r}) = {got[i]!r}, the limit is {want[i]!r}; {c}", region=a)
+
+
 def subchecks():
     subs = []
     heavy = {"conv1d", "conv2d", "max_pool2d", "avg_pool2d", "fold", "unfold"}
@@ -306,6 +339,7 @@ def subchecks():
     subs.append(SubCheck("conv_same_valid", check_same, same_cases, quick=400, thorough=4000))
     subs.append(SubCheck("no_window", check_nowindow, nowindow_cases, quick=300, thorough=3000))
     subs.append(SubCheck("pool_extreme_values", check_pool_extreme, pool_extreme_cases, quick=400, thorough=4000, shards_thorough=2))
+    subs.append(SubCheck("activations_at_infinity", check_act_inf, act_inf_cases, quick=300, thorough=3000))
     subs.append(SubCheck("bce_clamp", check_bce_edge, bce_edge_cases, quick=300, thorough=3000))
     subs.append(SubCheck("size_grid", check_sizes, None, enum=enum_sizes, exhaustive=True, shards_quick=4,
                          shards_thorough=8))
